@@ -663,7 +663,7 @@ class Evaluator:
             g = self.pkg.functions.get(q)
         if g is None or g.qual in inv or g.qual == self.fn.qual or g.is_property or g.decorators or g.vararg or g.kwarg:
             return None
-        if any(isinstance(a, ast.Starred) for a in call.args) or any(k.arg is None for k in call.keywords):
+        if _spread_keywords(call) is None:
             return None
         return g
 
@@ -679,6 +679,7 @@ class Evaluator:
     def inline(self, g, call, st):
         """run the body of helper `g` in place of the call: generator of (state, value term | None, exit) where exit is a raise exit
         or None; the caller's environment is restored in every resulting state"""
+        call = _spread_keywords(call) or call
         names = g.call_params if g.is_method else list(g.posparams)
         env = {}
         if g.is_method:
@@ -1006,6 +1007,30 @@ class Evaluator:
             self.emit(stp, "exception", (tid,), s)
             for st3, ex3 in finish(stp, ("raise", const("<propagated>"), s.lineno)):
                 yield st3, ex3
+
+
+def _spread_keywords(call):
+    """the call with literal spreads written out - f(*(a, b), **dict(k=v)) as f(a, b, k=v) - or None if a spread is not a literal"""
+    if not any(isinstance(a, ast.Starred) for a in call.args) and not any(k.arg is None for k in call.keywords):
+        return call
+    args, kws = [], []
+    for a in call.args:
+        if isinstance(a, ast.Starred):
+            if not isinstance(a.value, (ast.Tuple, ast.List)) or any(isinstance(x, ast.Starred) for x in a.value.elts):
+                return None
+            args.extend(a.value.elts)
+        else:
+            args.append(a)
+    for k in call.keywords:
+        if k.arg is not None:
+            kws.append(k)
+        elif isinstance(k.value, ast.Call) and isinstance(k.value.func, ast.Name) and k.value.func.id == "dict" and not k.value.args and all(x.arg is not None for x in k.value.keywords):
+            kws.extend(k.value.keywords)
+        elif isinstance(k.value, ast.Dict) and all(isinstance(x, ast.Constant) and isinstance(x.value, str) for x in k.value.keys):
+            kws.extend(ast.keyword(arg=x.value, value=v) for x, v in zip(k.value.keys, k.value.values))
+        else:
+            return None
+    return ast.copy_location(ast.Call(func=call.func, args=args, keywords=kws), call)
 
 
 def _pure_seq(t):
